@@ -58,6 +58,8 @@ IMPORTS = {
              'a merge there drops or overrides unknown options'),
             ('C03', ('C03-R2',), 'an option a section kind does not know (indent on a meta or diff section) must change nothing: it is '
              'interpreted only where the per-kind table says so'),
+            ('C08', ('C08-R1b',), 'loading a file through the object model must not fail (or overwrite an attribute) because of the *name* of '
+             'an option the library does not know'),
             ('C17', None, 'unknown options make header lines long: a line that straddles a read chunk must come back whole, or the options '
              'delivered differ')],
     'C13': [('C14', None, 'the statistics are the totals of the hunk parser: wrong geometry / totals / tolerated garbage give wrong counts'),
